@@ -76,6 +76,9 @@ type c01Case struct {
 	// Strict: the router is built with StrictLastSlash ('/x' and '/x/' are different paths); every path is also requested
 	// with a trailing slash
 	Strict bool `json:"strict_last_slash,omitempty"`
+	// Repeat > 0: after the normal pass every GET path is looked up Repeat more times in a row (a router that counts
+	// hits must not let the count change the answer), then the normal pass runs once more
+	Repeat int `json:"repeat_each_request,omitempty"`
 }
 
 // patterns for the StrictLastSlash tables: routes that end in '/', and routes whose tail after a literal first segment
@@ -180,6 +183,10 @@ func c01Gen(tier string, emit func(c01Case)) {
 	permute(c01Pool, 2, func(pats []string) {
 		emit(c01Case{Routes: []refmodel.RouteDef{{Path: pats[0], Methods: []string{"GET"}}, {Path: pats[1], Methods: []string{"GET"}}}, Methods: []string{"GET"}, Strict: true})
 	})
+	// every all-GET ordered pair again with every path looked up 130 times in a row (hit counters, promotion thresholds)
+	permute(c01Pool, 2, func(pats []string) {
+		emit(c01Case{Routes: []refmodel.RouteDef{{Path: pats[0], Methods: []string{"GET"}}, {Path: pats[1], Methods: []string{"GET"}}}, Methods: []string{"GET"}, Repeat: 130})
+	})
 	if tier == "quick" {
 		permute(c01Pool, 3, allGet)
 	} else {
@@ -229,6 +236,20 @@ func c01Run(c c01Case, st *fw.Stats) []fw.Viol {
 		note = " (after the router was inspected with String / Routes / IterateRoutes / NamedRoutes)"
 	}
 	c01Requests(c, r, rec, tb, note, st, add)
+	if c.Repeat > 0 && len(viols) == 0 {
+		for _, p := range c01Paths {
+			want := tb.Resolve("GET", p).Route
+			for k := 0; k < c.Repeat; k++ {
+				st.Evals++
+				got := -9
+				if pv := try(func() { rt, _, _ := r.Match("GET", p); got = routeIdx(rt) }); pv != nil || got != want {
+					add("select:changed-by-repetition", fmt.Sprintf("table [%s]: GET %q looked up %d times in a row after every path had been requested once: lookup #%d is dispatched to route %d (panic %v), the documented rule selects %d", defsString(c.Routes), p, c.Repeat, k+1, got, pv, want))
+					break
+				}
+			}
+		}
+		c01Requests(c, r, rec, tb, fmt.Sprintf(" (after every GET path was looked up %d times in a row)", c.Repeat), st, add)
+	}
 	if c.Late && len(viols) == 0 {
 		// second round: register the last route, issue every request again
 		if _, pv2 := registerIntoAt(r, c.Routes, c.Via, false, rec, n); pv2 != nil {
@@ -329,7 +350,7 @@ func c01Requests(c c01Case, r *rux.Router, rec *hitRec, tb *refmodel.Table, note
 var c01Spec = fw.Spec[c01Case]{
 	ID:    "C01",
 	Level: "model_checking",
-	Rule: "complete product: ordered route tables of <=K distinct patterns from a 27-pattern pool (every index/tier shortcut has colliding members) x method sets x registration APIs (Add, AddRoute(NewRoute), AddNamed, NewNamedRoute.AttachTo, GET/POST/... helpers, options via WithOptions, the pattern split into a Group prefix and a route path) (+ HEAD requests against every ordered pair of a GET-only and a HEAD-only route) (+ StrictLastSlash tables: ordered pairs over an 11-pattern pool of routes that end in '/' or whose tail may be empty, and the pairs of the main pool, with every path also requested with a trailing slash) (+ every ordered pair again after the router's inspection API was used, and on a caching router with the second route registered only after a first round of all requests) x request methods x all 259 paths of <=3 segments over {a,b,a.b,axb,12,q.html}; " +
+	Rule: "complete product: ordered route tables of <=K distinct patterns from a 27-pattern pool (every index/tier shortcut has colliding members) x method sets x registration APIs (Add, AddRoute(NewRoute), AddNamed, NewNamedRoute.AttachTo, GET/POST/... helpers, options via WithOptions, the pattern split into a Group prefix and a route path) (+ HEAD requests against every ordered pair of a GET-only and a HEAD-only route) (+ StrictLastSlash tables: ordered pairs over an 11-pattern pool of routes that end in '/' or whose tail may be empty, and the pairs of the main pool, with every path also requested with a trailing slash) (+ every all-GET ordered pair again with every path looked up 130 times in a row and the whole pass repeated afterwards) (+ every ordered pair again after the router's inspection API was used, and on a caching router with the second route registered only after a first round of all requests) x request methods x all 259 paths of <=3 segments over {a,b,a.b,axb,12,q.html}; " +
 		"each (table,method,path) is one evaluation: Router.Match and ServeHTTP on the real router vs refmodel.Resolve; non-trivial = at least two routes qualify or the winner is not the first registered route",
 	Assume: []string{
 		"patterns and paths are drawn from the stated alphabets; larger tables are covered only as far as the small-scope hypothesis goes",
